@@ -1,76 +1,58 @@
 (* O-3b: with ONE Truncate round per attach (what the code does, [step_code]) an acknowledged write is lost
-   without any ensemble change: 5 nodes, 6 terms, minority-only leaders in terms 1, 2, 3, 4.
-   In term 5 the follower 1 = [a1;b1;c1;d3] is asked to truncate to the leader's entry (2, offset 0); by entry id
-   it keeps [a1;b1;c1] (term 1 < 2), which is not in the leader's log [x2;w4], and the cursor is credited with 3
-   entries; the write v5 at offset 2 is then acknowledged with two real copies out of five and is gone in term 6.
+   without any ensemble change: 5 nodes, 6 terms.  Node 1 holds [a1;b1;d3] (minority leader of terms 1 and 3);
+   w4 is written in term 4 by node 2 on top of x2, replicated to 3 and 4 and ACKNOWLEDGED.  In term 5 node 1 is
+   asked to truncate to the leader's entry (2, offset 0): by entry id it keeps [a1;b1] (term 1 < 2), which is not
+   in the leader's log [x2;w4]; its cursor is credited with 2 entries, it appends v5 on top of the wrong prefix
+   and acknowledges it; in term 6 it has the highest head (5,3), wins, and serves [a1;b1;v5]: w4 is gone.
    Found by the proof attempt of I_att (group C).  The repaired protocol ([step], attach_loop) refuses this
-   execution at the same point: the follower ends with [] and the write is not acknowledged. *)
+   action list (node 1 ends with [] after the second round). *)
 From Coq Require Import List Arith Bool PeanoNat.
 From Oxia.Cluster Require Import Model CodeModel.
 Import ListNotations.
-Definition a1 := mkE 1 11. Definition b1 := mkE 1 12. Definition c1 := mkE 1 13.
+Definition a1 := mkE 1 11. Definition b1 := mkE 1 12.
 Definition x2 := mkE 2 20. Definition d3 := mkE 3 30. Definition w4 := mkE 4 40. Definition v5 := mkE 5 50.
 Definition multi_round_trace : list action := [
-NewElection;
-NewTerm 1 1; NewTerm 2 1; NewTerm 3 1;
-Elect 1 [(1,[]);(2,[]);(3,[])] [];
-BecomeLeader 1; FinishBecomeLeader 1;
-ClientWrite 1 11; ClientWrite 1 12; ClientWrite 1 13;
-NewElection;
-NewTerm 2 2; NewTerm 3 2; NewTerm 4 2;
-Elect 2 [(2,[]);(3,[]);(4,[])] [];
-BecomeLeader 2; FinishBecomeLeader 2;
-ClientWrite 2 20;
-NewElection;
-NewTerm 1 3; NewTerm 3 3; NewTerm 4 3;
-Elect 1 [(1,[a1;b1;c1]);(3,[]);(4,[])] [];
-BecomeLeader 1;
-Attach 1 3 []; Attach 1 4 [];
-SendAppend 1 3 0; SendAppend 1 3 1; SendAppend 1 3 2; SendAppend 1 4 0; SendAppend 1 4 1; SendAppend 1 4 2;
-RecvAppend 3 3 0 a1; RecvAppend 3 3 1 b1; RecvAppend 3 3 2 c1;
-RecvAppend 4 3 0 a1; RecvAppend 4 3 1 b1; RecvAppend 4 3 2 c1;
-RecvAck 1 3 2; RecvAck 1 4 2;
-FinishBecomeLeader 1;
-ClientWrite 1 30;
-NewElection;
-NewTerm 2 4; NewTerm 3 4; NewTerm 5 4;
-Elect 2 [(2,[x2]);(3,[a1;b1;c1]);(5,[])] [];
-BecomeLeader 2;
-Attach 2 3 [a1;b1;c1]; Attach 2 5 [];
-SendAppend 2 3 0; SendAppend 2 5 0;
-RecvAppend 3 4 0 x2; RecvAppend 5 4 0 x2;
-RecvAck 2 3 0; RecvAck 2 5 0;
-FinishBecomeLeader 2;
-ClientWrite 2 40;
-NewElection;
-NewTerm 2 5; NewTerm 3 5; NewTerm 5 5; NewTerm 1 5;
-Elect 2 [(2,[x2;w4]);(3,[x2]);(5,[x2])] [];
-BecomeLeader 2;
-Attach 2 1 [a1;b1;c1;d3];
-Attach 2 3 [x2];
-SendAppend 2 3 1; RecvAppend 3 5 1 w4; RecvAck 2 3 1;
-FinishBecomeLeader 2;
-ClientWrite 2 50;
-SendAppend 2 3 2; RecvAppend 3 5 2 v5; RecvAck 2 3 2;
-AckClient 2 2;
-NewElection;
-NewTerm 1 6; NewTerm 4 6; NewTerm 5 6;
-Elect 5 [(5,[x2]);(1,[a1;b1;c1]);(4,[a1;b1;c1])] [];
-BecomeLeader 5;
-Attach 5 1 [a1;b1;c1]; Attach 5 4 [a1;b1;c1];
-SendAppend 5 1 0; SendAppend 5 4 0;
-RecvAppend 1 6 0 x2; RecvAppend 4 6 0 x2;
-RecvAck 5 1 0; RecvAck 5 4 0;
-FinishBecomeLeader 5
+ (* term 1: node 1 leads, writes a1 b1 locally only *)
+ NewElection; NewTerm 1 1; NewTerm 3 1; NewTerm 5 1; Elect 1 [(1,[]);(3,[]);(5,[])] [];
+ BecomeLeader 1; Attach 1 3 []; Attach 1 5 []; FinishBecomeLeader 1; ClientWrite 1 11; ClientWrite 1 12;
+ (* term 2: node 2 leads (1 unreachable), writes x2 locally only *)
+ NewElection; NewTerm 2 2; NewTerm 3 2; NewTerm 4 2; Elect 2 [(2,[]);(3,[]);(4,[])] [];
+ BecomeLeader 2; Attach 2 3 []; Attach 2 4 []; FinishBecomeLeader 2; ClientWrite 2 20;
+ (* term 3: node 1 leads again (2 unreachable), writes d3 locally only *)
+ NewElection; NewTerm 1 3; NewTerm 3 3; NewTerm 5 3; Elect 1 [(1,[a1;b1]);(3,[]);(5,[])] [];
+ BecomeLeader 1; Attach 1 3 []; Attach 1 5 [];
+ SendAppend 1 3 0; RecvAppend 3 3 0 a1; SendAppend 1 3 1; RecvAppend 3 3 1 b1; RecvAck 1 3 1;
+ SendAppend 1 5 0; RecvAppend 5 3 0 a1; SendAppend 1 5 1; RecvAppend 5 3 1 b1; RecvAck 1 5 1;
+ FinishBecomeLeader 1; ClientWrite 1 30;
+ (* term 4: node 2 leads (1 unreachable): x2 re-replicated, w4 written, replicated to 3 and 4 and ACKNOWLEDGED *)
+ NewElection; NewTerm 2 4; NewTerm 3 4; NewTerm 4 4; Elect 2 [(2,[x2]);(3,[a1;b1]);(4,[])] [];
+ BecomeLeader 2; Attach 2 3 [a1;b1]; Attach 2 4 [];
+ SendAppend 2 3 0; RecvAppend 3 4 0 x2; RecvAck 2 3 0; SendAppend 2 4 0; RecvAppend 4 4 0 x2; RecvAck 2 4 0;
+ FinishBecomeLeader 2; ClientWrite 2 40;
+ SendAppend 2 3 1; RecvAppend 3 4 1 w4; RecvAck 2 3 1; SendAppend 2 4 1; RecvAppend 4 4 1 w4; RecvAck 2 4 1;
+ AckClient 2 1;
+ (* term 5: node 1 is back with [a1;b1;d3]; ONE truncate round to the leader's entry (2, offset 0) keeps [a1;b1] *)
+ NewElection; NewTerm 2 5; NewTerm 3 5; NewTerm 4 5; NewTerm 1 5;
+ Elect 2 [(2,[x2;w4]);(3,[x2;w4]);(4,[x2;w4])] [];
+ BecomeLeader 2; Attach 2 3 [x2;w4]; Attach 2 4 [x2;w4]; Attach 2 1 [a1;b1;d3];
+ FinishBecomeLeader 2; ClientWrite 2 50;
+ SendAppend 2 1 2; RecvAppend 1 5 2 v5; RecvAck 2 1 2; SendAppend 2 3 2; RecvAppend 3 5 2 v5; RecvAck 2 3 2;
+ AckClient 2 2;
+ (* term 6: 2 and 3 unreachable; node 1 has the highest head (5,3) and wins with [a1;b1;v5] *)
+ NewElection; NewTerm 1 6; NewTerm 4 6; NewTerm 5 6;
+ Elect 1 [(1,[a1;b1;v5]);(4,[x2;w4]);(5,[a1;b1])] [];
+ BecomeLeader 1; Attach 1 4 [x2;w4]; Attach 1 5 [a1;b1];
+ SendAppend 1 5 2; RecvAppend 5 6 2 v5; RecvAck 1 5 2;
+ SendAppend 1 4 0; RecvAppend 4 6 0 a1; SendAppend 1 4 1; RecvAppend 4 6 1 b1; SendAppend 1 4 2; RecvAppend 4 6 2 v5; RecvAck 1 4 2;
+ FinishBecomeLeader 1
 ].
 
 Lemma code_loses_acked_write :
   exists w, run_code (init [1;2;3;4;5]) multi_round_trace = Some w /\
-            In (5, 2, v5) (cacked w) /\ nst (nodes w 5) = Leader /\ nterm (nodes w 5) = 6 /\
-            nlog (nodes w 5) = [x2] /\ acked_survive_b w [1;2;3;4;5] = false /\
+            In (4, 1, w4) (cacked w) /\ nst (nodes w 1) = Leader /\ nterm (nodes w 1) = 6 /\
+            nlog (nodes w 1) = [a1; b1; v5] /\ acked_survive_b w [1;2;3;4;5] = false /\
             consistent_run (init [1;2;3;4;5]) multi_round_trace = false.
 Proof. eexists. split; [vm_compute; reflexivity|]. vm_compute. repeat split; auto. Qed.
 
-(* the repaired protocol does not acknowledge that write: the same action list is refused at AckClient *)
 Lemma repaired_protocol_refuses : run (init [1;2;3;4;5]) multi_round_trace = None.
 Proof. vm_compute. reflexivity. Qed.
